@@ -30,7 +30,7 @@ class Harness(object):
     sys.modules[self.modname] = self.module
     self.g = g = self.module.__dict__
     g.update({
-        'c': dn(env.c), 'it': dn(env.it), 'it2': dn(env.it2), 't': dn(env.t), 'cm': dn(env.cm),
+        'c': dn(env.c), 'it': dn(env.it), 'it2': dn(env.it2), 'it3': dn(env.it3), 't': dn(env.t), 'cm': dn(env.cm),
         'mark': dn(env.mark), 'E': tapemod.E, 'E2': tapemod.E2, 'G': 9,
     })
     if extra_globals:
